@@ -351,8 +351,22 @@ class ExprMixin:
         base = self.ev(node.value, st, fr)
         if isinstance(node.slice, ast.Slice):
             return self.slice_value(base, node.slice, st, fr)
+        if isinstance(node.slice, ast.Tuple) and any(isinstance(e, ast.Slice) for e in node.slice.elts):
+            return self.column_view(base, node.slice.elts, st, fr)
         idx = self.ev(node.slice, st, fr)
         return self.index_value(base, idx, st, fr, node)
+
+    def column_view(self, base, elts, st, fr):
+        """a[:, c] / a[r, :] of a 2-d array: a 1-d view defined point-wise (the base array is assumed not to be written through
+        another name while the view is in use)."""
+        if not (isinstance(base, Obj) and base.kind == 'arr' and base.ndim == 2 and len(elts) == 2):
+            raise Unsupported('partial slicing of %r' % (base,))
+        full = [isinstance(e, ast.Slice) and e.lower is None and e.upper is None and e.step is None for e in elts]
+        if full == [True, False]:
+            return Obj(base.ref, 'ndarray', 'arr', base.elem, 1, view=(base, 'col', to_int(self.ev(elts[1], st, fr))))
+        if full == [False, True]:
+            return Obj(base.ref, 'ndarray', 'arr', base.elem, 1, view=(base, 'row', to_int(self.ev(elts[0], st, fr))))
+        raise Unsupported('slicing pattern')
 
     def slice_value(self, base, sl, st, fr):
         lo = self.ev(sl.lower, st, fr) if sl.lower is not None else None
@@ -385,7 +399,12 @@ class ExprMixin:
             else:
                 self.emit(st, 'defined.index.%s' % what, z3.And(i >= -n, i < n), 'index in range')
         if wrap and not (isinstance(ic, int) and ic >= 0):
-            return z3.If(i < 0, i + n, i) if ic is None else (i + n)
+            if ic is not None:
+                return i + n
+            # symbolic index: if the path condition already excludes a negative value, no wrap-around term is needed
+            if not self.feasible(st, i < 0):
+                return i
+            return z3.If(i < 0, i + n, i)
         return i
 
     def index_value(self, base, idx, st, fr, node=None):
@@ -813,7 +832,14 @@ class ExprMixin:
         if t is ast.Sub:
             return x - y
         if t is ast.Mult:
-            return x * y
+            prod = x * y
+            # product with a value known to lie in [0, 1) (e.g. uniform()): instantiate the valid bound 0 <= a*u < a for a > 0
+            for a_, u_ in ((x, y), (y, x)):
+                if is_z3(u_) and u_.get_id() in getattr(self, 'unit_syms', ()):
+                    ar, ur = to_real(a_), to_real(u_)
+                    self.add_fact(('unit-product', prod.get_id()),
+                                  z3.And(z3.Implies(ar > 0, z3.And(ar * ur >= 0, ar * ur < ar)), z3.Implies(ar == 0, ar * ur == 0)))
+            return prod
         if t is ast.Div:
             return self.divide(x, y, kind, st, fr, node)
         if t is ast.FloorDiv:
